@@ -305,9 +305,17 @@ func handleCTCPFinger(client *Client, ctcp CTCPEvent) {
 		return
 	}
 
+	// CTCP handlers run in their own goroutine and may outlive the connection.
+	client.mu.RLock()
+	if client.conn == nil {
+		client.mu.RUnlock()
+		return
+	}
+
 	client.conn.mu.RLock()
 	active := client.conn.lastActive
 	client.conn.mu.RUnlock()
+	client.mu.RUnlock()
 
 	client.Cmd.SendCTCPReply(ctcp.Source.ID(), CTCP_FINGER, fmt.Sprintf("%s -- idle %s", client.Config.Name, time.Since(active)))
 }
